@@ -76,11 +76,12 @@ def ensure_facts(profile="dev", repo=None, quiet=False):
     fcntl.flock(lock, fcntl.LOCK_EX)
     try:
         if os.path.exists(out):
+            os.utime(d, None)
             return out
-        # drop stale fact dirs (keep disk small)
-        for e in os.listdir(WORK):
-            if e.startswith("facts-") and not e.startswith(f"facts-{key}-"):
-                shutil.rmtree(os.path.join(WORK, e), ignore_errors=True)
+        # drop stale fact dirs (keep disk small): only the 3 most recently used trees are kept
+        olds = sorted((e for e in os.listdir(WORK) if e.startswith("facts-")), key=lambda e: os.path.getmtime(os.path.join(WORK, e)), reverse=True)
+        for e in olds[3:]:
+            shutil.rmtree(os.path.join(WORK, e), ignore_errors=True)
         os.makedirs(d, exist_ok=True)
         tgt = os.path.join(d, "target")
         shutil.rmtree(tgt, ignore_errors=True)
